@@ -63,7 +63,7 @@ def path_points(case, res, rep, rng):
     import numpy as np
     from skglm.solvers import AndersonCD
     from .. import ref
-    from ..impl import compiled_df, compiled_pen, Pen, classify_exc, to_csc
+    from ..impl import compiled_df, compiled_pen, Pen, classify_exc, to_csc, case_csc
     if case.pen.kind in ("box", "pos") or case.df.kind == "svc":
         return
     n, p = case.X.shape
@@ -85,7 +85,7 @@ def path_points(case, res, rep, rng):
     elif mode == "intercept-only" and fi:
         w_init = np.zeros(p + 1)
         w_init[-1] = rng.choice([1.0, -2.0, 5.0])
-    Xin = to_csc(case.X) if case.sparse else np.asfortranarray(case.X)
+    Xin = case_csc(case) if case.sparse else np.asfortranarray(case.X)
     try:
         out = solver.path(Xin, case.y.copy(), datafit, penalty, alphas=np.array(alphas), w_init=w_init)
     except Exception as e:  # noqa: BLE001
@@ -267,6 +267,32 @@ def _bb_worker(args):
             bbox.ORACLES[o](case, res, rep, rng)
         if ladder and res["out"] is not None and solver not in ("FISTA", "LBFGS"):
             bb_ladder(bbox, case, rep, rng)
+        if degenerate and solver not in ("LBFGS",) and any(not case.X[:, j].any() for j in range(case.X.shape[1])):
+            # the same degenerate problem in the other storage layouts: dense, CSC with structurally empty null
+            # columns, CSC with the null columns stored as explicit zeros (what `X[:, j] = 0` leaves behind)
+            import copy
+            for layout in ("dense", "csc-empty", "csc-explicit"):
+                c2 = copy.copy(case)
+                c2.knobs = dict(case.knobs)
+                if "p0" in c2.knobs:
+                    c2.knobs["p0"] = 10            # the null column sits in the first working set
+                c2.sparse = layout != "dense"
+                c2.explicit_zeros = -1 - rng.randrange(1 << 20) if layout == "csc-explicit" else None
+                if c2.sparse and (solver == "ProxNewton" and case.df.kind == "wquadratic"):
+                    continue
+                r2 = bbox.run_case(c2)
+                rep.count(f"bb-layout:{solver}/{layout}", False, (solver, chunk, c, layout))
+                if r2["err"] is not None:
+                    cls = r2["err"].split(":")[1]
+                    if cls in ("AttributeError", "ValueError") and any(t in r2["err"] for t in (
+                            "not compatible", "must", "not yet supported", "should only take positive", "sparse")):
+                        continue
+                    rep.violate(f"{solver}.solve failed on a design with a null column stored as {layout}: {r2['err'][:160]}",
+                                dict(c2.signature(site=f"{solver}.solve"), kind="raises:" + cls, layout=layout),
+                                case=c2.describe(), impl_output=r2["err"])
+                    continue
+                for o in oracles:
+                    bbox.ORACLES[o](c2, r2, rep, rng)
         if len(rep.samples) < 1 and nontriv:
             rep.sample(dict(solver=solver, datafit=case.df.describe(), penalty=case.pen.describe(), knobs=case.knobs,
                             shape=list(case.X.shape), n_iter=len(res["out"][1]), stop_crit=float(res["out"][2])))
@@ -344,6 +370,11 @@ def _fmt_worker(args):
             case = bbox.gen_bb(rng, solver)
             runner = bbox.run_case
             objective = lambda cs, w: cs.objective(w)              # noqa: E731
+            if solver in ("ProxNewton", "GramCD") and case.pen.kind in ("l1", "l1l2") and rng.random() < 0.5:
+                # per-feature parameters: an index slip in one storage format's kernel shows only with these
+                from ..impl import Pen
+                case.pen = Pen("wl1", case.pen.alpha, positive=False)
+                case.wts = np.array([rng.choice([0.25, 0.5, 1.0, 2.0, 4.0]) for _ in range(case.X.shape[1])])
         outs = {}
         for fmt in ("dense", "csc"):
             c2 = copy.copy(case)
@@ -364,6 +395,33 @@ def _fmt_worker(args):
             continue
         if d["err"] is not None:
             continue
+        # generous budget: the same convex problem must be *solved* in both formats (same optimum, both converged)
+        convex_pen = case.pen.kind not in ("mcp", "wmcp", "scad", "l05", "l23", "logsum", "bmcp", "bscad", "l205")
+        if convex_pen and solver != "FISTA":
+            big = {}
+            for fmt in ("dense", "csc"):
+                c3 = copy.copy(case)
+                c3.sparse = fmt == "csc"
+                c3.knobs = dict(case.knobs)
+                for k_, v_ in (("max_iter", 20000 if solver == "GramCD" else 100), ("max_epochs", 5000),
+                               ("max_pn_iter", 500), ("tol", 1e-8)):
+                    if k_ in c3.knobs:
+                        c3.knobs[k_] = v_
+                c3.w_init = None if case.w_init is None else np.array(case.w_init, copy=True)
+                big[fmt] = runner(c3)
+            bd, bs = big["dense"], big["csc"]
+            rep.count(f"fmt-converged:{solver}/{case.df.kind}/{case.pen.kind}", False, ("fmtc", solver, chunk, c))
+            if bd["err"] is None and bs["err"] is None:
+                sd_, ss_ = float(np.max(bd["out"][2])), float(np.max(bs["out"][2]))
+                fd_, fs_ = objective(case, np.asarray(bd["out"][0], float)), objective(case, np.asarray(bs["out"][0], float))
+                one_sided = (sd_ <= 1e-8 and ss_ > 1e-5) or (ss_ <= 1e-8 and sd_ > 1e-5)
+                differ = sd_ <= 1e-8 and ss_ <= 1e-8 and np.isfinite(fd_) and abs(fd_ - fs_) > 1e-6 * (1 + abs(fd_))
+                if one_sided or differ:
+                    rep.violate(f"{solver}: with a generous budget the problem is solved in one storage format and not "
+                                f"(or differently) in the other", dict(sig, kind="format-converged-mismatch"),
+                                case=case.describe(),
+                                impl_output=dict(dense=np.asarray(bd["out"][0]).tolist(), csc=np.asarray(bs["out"][0]).tolist(),
+                                                 stop_dense=sd_, stop_csc=ss_), oracle=dict(obj_dense=fd_, obj_csc=fs_))
         wd, ws_ = np.asarray(d["out"][0], float), np.asarray(s_["out"][0], float)
         approx_const = solver in ("FISTA", "GroupBCD")       # sparse constants come from a power iteration
         tol = case.knobs.get("tol", 1e-4)
